@@ -42,6 +42,7 @@ type conn struct {
 	id    string
 	queue chan []byte
 	topic chan string
+	quit  chan struct{} // closed when the connection ends
 }
 
 // New starts a broker on a loopback port.
@@ -64,7 +65,7 @@ func New() *Broker {
 			if err != nil {
 				return
 			}
-			cn := &conn{c: c, queue: make(chan []byte, 4096), topic: make(chan string, 4096)}
+			cn := &conn{c: c, queue: make(chan []byte, 4096), topic: make(chan string, 4096), quit: make(chan struct{})}
 			b.mu.Lock()
 			b.conns[cn] = true
 			b.mu.Unlock()
@@ -202,9 +203,24 @@ func (b *Broker) Inject(topic string, payload []byte) {
 	b.queued += len(targets)
 	b.mu.Unlock()
 	for _, t := range targets {
-		t.topic <- topic
-		t.queue <- pkt
+		b.enqueue(t, topic, pkt)
 	}
+}
+
+// enqueue hands a packet to a subscriber's deliver loop (or drops it if that connection has ended).
+func (b *Broker) enqueue(t *conn, topic string, pkt []byte) {
+	select {
+	case t.topic <- topic:
+		select {
+		case t.queue <- pkt:
+			return
+		case <-t.quit:
+		}
+	case <-t.quit:
+	}
+	b.mu.Lock()
+	b.queued--
+	b.mu.Unlock()
 }
 
 // SetDelay installs the delivery delay function.
@@ -277,8 +293,46 @@ func (c *conn) send(p []byte) {
 }
 
 func (b *Broker) deliverLoop(c *conn) {
-	for pkt := range c.queue {
-		topic := <-c.topic
+	defer func() {
+		// deliveries still queued for a connection that has ended will never be written
+		n := 0
+		for {
+			select {
+			case <-c.queue:
+				n++
+				continue
+			default:
+			}
+			break
+		}
+		for {
+			select {
+			case <-c.topic:
+				continue
+			default:
+			}
+			break
+		}
+		b.mu.Lock()
+		b.queued -= n
+		if b.queued < 0 {
+			b.queued = 0
+		}
+		b.mu.Unlock()
+	}()
+	for {
+		var pkt []byte
+		var topic string
+		select {
+		case topic = <-c.topic:
+			select {
+			case pkt = <-c.queue:
+			case <-c.quit:
+				return
+			}
+		case <-c.quit:
+			return
+		}
 		b.mu.Lock()
 		d := time.Duration(0)
 		if b.delay != nil {
@@ -302,6 +356,7 @@ func (b *Broker) deliverLoop(c *conn) {
 func (b *Broker) serve(c *conn) {
 	defer func() {
 		c.c.Close()
+		close(c.quit) // ends this connection's deliver loop
 		b.mu.Lock()
 		delete(b.conns, c)
 		for t, l := range b.subs {
@@ -366,8 +421,7 @@ func (b *Broker) serve(c *conn) {
 			b.queued += len(targets)
 			b.mu.Unlock()
 			for _, t := range targets {
-				t.topic <- topic
-				t.queue <- pkt
+				b.enqueue(t, topic, pkt)
 			}
 		case 8: // SUBSCRIBE
 			pid := body[:2]
